@@ -57,11 +57,11 @@ PROPS = {
                   "project_ok_iff", "zero_is_error", "dimension_is_error", "larger_is_error", "project_mass", "project_id",
                   "project_nonneg", "hyper_compose", "project_project", "project_marginalize_comm"],
         modules=["SfsModel.Props.C03", "SfsModel.Props.C03X"],
-        nontrivial=r"^(project-d[1-9]|project-two-step$|pmf-.*-pos|project-err)",
+        nontrivial=r"^(project-d[1-9]|project-two-step$|project-row|pmf-.*-pos|project-err)",
         rule="Spectrum::project in-process on every admissible target (<= 40 sampled per shape in quick) of all shapes 1-2 axes x 1..7, 3 axes x 1..3, 4 axes x 1..2 "
              "(thorough: 1-3 x 1..7, 4 x 1..3), odd-integer data and unit vectors (single operator rows), two-step vs direct, rejected targets (larger, zero, other dimensionality); "
              "hypergeometric_pmf coefficients at N in {1,2,3,169..172,500,1029,1030,2000,5000} x 120 (thorough 400) (K,n,k) probes around the mode; "
-             "compared with exact rationals within 2^-30 relative; non-trivial = distinct request with a non-identity target, a positive coefficient or an error",
+             "compared with exact rationals within 2^-30 relative; non-trivial = distinct request with a non-identity target, a positive coefficient or an error Plus whole rows of the operator through Spectrum::project at 400 / 1100 / 1200 / 2000 (thorough up to 4000) chromosomes with the source entry mid-range and targets near half the source (c03.row), incl. one two-axis case.",
         exhaustive=True,
         assumptions=["binary64 evaluation (ln_gamma, exp, rounding of binomials) is compared within 2^-30*(|q|+scale), not proved; 'finite for thousands of chromosomes' is decided by the coefficient probes only"],
         correspondence_only=["finite results at sizes of thousands of chromosomes (f64 range)",
@@ -73,7 +73,7 @@ PROPS = {
         rule="exhaustive: all 26 maps of 3 columns into <= 2 populations x all 64 records over {0,1,2,missing}^3 (in-process); random: 1-4 populations of unequal size, 2-12 (thorough 40) columns, "
              "any subset listed in any order, named/unnamed mix, 1-30 (thorough 300) records over called/missing/multiallelic/ploidy-error genotypes with 'only an unselected sample is bad' forced in 10%, "
              "two contigs, extra INFO/FORMAT fields; 300 in-process + 50 CLI (thorough 3000 + 400) over vcf/vcf.gz/bcf/raw bcf; stdout compared byte for byte (precision forced to 0); "
-             "non-trivial = distinct request with >= 2 populations, or with both counted and skipped records, or a failing run",
+             "non-trivial = distinct request with >= 2 populations, or with both counted and skipped records, or a failing run Positions repeat (a third of the records share contig:position with their predecessor). Byte level (`ct.create`): a third of the CLI cases are also decoded from their container bytes by the model (Inflate / Bgzf / Vcf / Bcf models) instead of being handed over in the harness's notation.",
         exhaustive=True, assumptions=["in-process cases drive the real site::Reader through an in-memory genotype::Reader; CLI cases run the real binary on generated VCF text / BCF (noodles writer, or a hand-written BCF2.2 encoder for mixed ploidy) / BGZF", "noodles (VCF/BCF/BGZF parsing), clap and env_logger are exercised, not modelled"],
     ),
     "C02": dict(
@@ -83,7 +83,7 @@ PROPS = {
         rule="exhaustive: 2 populations of 1-2 samples x every target m_j in 0..2n_j x all records over {0,1,2,missing}^n (in-process, incl. t = m for all j, t_j = m_j - 2, m_j = 0); "
              "random maps/targets incl. inadmissible ones (larger, other dimensionality, zero), -p vs --project-shape; cohorts of 90-600 (thorough 3000) samples in one population (binomials beyond f64 range); "
              "CLI with --precision in {0,1,6,15,default}; values within 2^-30 relative (+ half a unit of the printed decimal for CLI text) of the exact rational model; "
-             "non-trivial = distinct request containing a down-sampled or insufficient site, a builder error, or any CLI run",
+             "non-trivial = distinct request containing a down-sampled or insufficient site, a builder error, or any CLI run Plus 24 (thorough 120) call sets over 5-8 populations whose projected sites agree in some populations and differ in others; positions repeat.",
         exhaustive=True, assumptions=["in-process cases drive the real site::Reader through an in-memory genotype::Reader; CLI cases run the real binary on generated VCF text / BCF (noodles writer, or a hand-written BCF2.2 encoder for mixed ploidy) / BGZF", "noodles (VCF/BCF/BGZF parsing), clap and env_logger are exercised, not modelled"] + ["binary64 evaluation of the hypergeometric pmf is compared with the exact value within 2^-30 relative, not proved"],
     ),
     "C08": dict(
@@ -91,7 +91,7 @@ PROPS = {
         nontrivial=r"^(c08|ct)-cli-",
         rule="every GT string over alleles {., 0, 1, 2, 3, 10} x separators {/,|} x ploidy 1-2 (all 78) and ploidy 3 (60 sampled; thorough all 864, plus allele 62/255/2^31 in VCF), placed in a selected column, "
              "an unselected column, or with all columns selected, through the VCF text path and the BCF binary path (mixed-ploidy GT vectors with end-of-vector padding), followed by a second record; "
-             "observed: exit status, stdout bytes, skipped summary, error site 'contig:pos'; non-trivial = every distinct request (finite alphabet)",
+             "observed: exit status, stdout bytes, skipped summary, error site 'contig:pos'; non-trivial = every distinct request (finite alphabet) Quick covers every triploid string over {., 0, 1} and tetraploid / pentaploid all-missing strings; every GT string is also placed in real VCF text / BCF int8 vectors that the container model decodes itself (`ct.create`).",
         exhaustive=True, assumptions=["in-process cases drive the real site::Reader through an in-memory genotype::Reader; CLI cases run the real binary on generated VCF text / BCF (noodles writer, or a hand-written BCF2.2 encoder for mixed ploidy) / BGZF", "noodles (VCF/BCF/BGZF parsing), clap and env_logger are exercised, not modelled"] + ["GT '.' (whole field missing) is a missing genotype (interpretation fixed by commit b7debed)"],
     ),
     "C09": dict(
@@ -100,7 +100,7 @@ PROPS = {
         nontrivial=r"^c09-cli-",
         rule="150 (thorough 1500) call sets x sample lists (subset, random order, named/unnamed mix) given inline (-s) and as a file (-S), 3 permutations of list entries, 3 permutations of the input columns "
              "(VCF and BCF), plus error lists (absent sample, empty file, sample listed twice with different labels); every variant compared with the model, whose invariance under these transformations is proved; "
-             "non-trivial = every distinct request",
+             "non-trivial = every distinct request A third of the call sets use sample names and labels with blanks, punctuation, shared first words, a label that is a prefix of another, an empty label, non-ASCII letters.",
         exhaustive=False, assumptions=["in-process cases drive the real site::Reader through an in-memory genotype::Reader; CLI cases run the real binary on generated VCF text / BCF (noodles writer, or a hand-written BCF2.2 encoder for mixed ploidy) / BGZF", "noodles (VCF/BCF/BGZF parsing), clap and env_logger are exercised, not modelled"],
     ),
     "C10": dict(
@@ -108,14 +108,14 @@ PROPS = {
         nontrivial=r"^(c10|ct)-cli-",
         rule="40 (thorough 400) record streams of length 1-8 x {non-strict, strict} x a fault (ploidy error in a selected column, a site that would be skipped, a corrupt POS field, a truncated line) inserted at every "
              "position 0..len (half of them in quick), with projection in a third of the streams; checked: exit status, stdout empty on failure, 'Skipped X/Y' parsed and X + mass = Y via the model, error names "
-             "contig:pos of the first offending record; non-trivial = every distinct request",
+             "contig:pos of the first offending record; non-trivial = every distinct request Half of the streams repeat contig:position in consecutive records (counted and skipped ones); a third of the fault streams are also decoded from their VCF / BCF bytes by the container model (`ct.create`), incl. the corrupt-line kinds.",
         exhaustive=True, assumptions=["in-process cases drive the real site::Reader through an in-memory genotype::Reader; CLI cases run the real binary on generated VCF text / BCF (noodles writer, or a hand-written BCF2.2 encoder for mixed ploidy) / BGZF", "noodles (VCF/BCF/BGZF parsing), clap and env_logger are exercised, not modelled"] + ["for a corrupt record the reported position is not compared (noodles' reader state), only the error kind, exit status and empty stdout"],
     ),
     "C11": dict(
         theorems=["readSite_eq_spec", "readSite_lengths", "readSite_stateless", "run_eq_sum", "run_append", "run_perm"],
         nontrivial=r"^c11-(mem-.*(SP|SI|PI|SPI)|cli-)",
         rule="all 64 ordered pairs (predecessor kind, successor kind) of eight site kinds (complete, exactly sufficient through a missing / a multiallelic sample, insufficient in either population, complete with other counts, every selected sample uncalled, every sample uncalled) x 4 projection settings; 120 (thorough 1000) random sequences of 2-12 records x every split point (both parts) x 5 (thorough 20) "
-             "permutations, in-process with the per-record site kind sequence compared item by item; CLI on concatenated / permuted VCF and BCF; non-trivial = distinct request mixing at least two site kinds",
+             "permutations, in-process with the per-record site kind sequence compared item by item; CLI on concatenated / permuted VCF and BCF; non-trivial = distinct request mixing at least two site kinds Every ordered pair also at one shared contig:position; odd sequences consist of runs of records sharing a position.",
         exhaustive=True, assumptions=["in-process cases drive the real site::Reader through an in-memory genotype::Reader; CLI cases run the real binary on generated VCF text / BCF (noodles writer, or a hand-written BCF2.2 encoder for mixed ploidy) / BGZF", "noodles (VCF/BCF/BGZF parsing), clap and env_logger are exercised, not modelled"],
     ),
     "C12": dict(
@@ -124,7 +124,7 @@ PROPS = {
         nontrivial=r"^(c12-same|ct-cli)",
         rule="12 (thorough 60) call sets (up to 3000 records, with/without projection and sample lists, one ending in a ploidy error) each run as {vcf, vcf.gz, bcf, raw bcf} x {path, stdin} x threads {1,3,16} "
              "(thorough 1,2,3,4,8,16) x BGZF layouts (one line per block, random cuts incl. mid-line, interleaved empty blocks; thorough also single block / 9 even cuts) x 2 (thorough 3) repeated executions: "
-             "all stdout bytes and exit classes must be identical, and equal to the model's output; non-trivial = every distinct call set (each stands for 64-200 executions)",
+             "all stdout bytes and exit classes must be identical, and equal to the model's output; non-trivial = every distinct call set (each stands for 64-200 executions) Each call set is additionally read from a named pipe given as the input path (first write of 1 / 2 / 20 bytes). Byte level (`ct.create`): 40 container files (flate2-compressed BGZF, noodles-written BCF) are decoded by the model's own inflate / BGZF / VCF / BCF decoders, and 36 container files *written by the model's encoders* (stored-block BGZF with block payloads of 1 ... 65280 bytes, plain VCF, BCF) are read by the binary: outcome = createCli of the decoded call set in both directions.",
         exhaustive=False, assumptions=["in-process cases drive the real site::Reader through an in-memory genotype::Reader; CLI cases run the real binary on generated VCF text / BCF (noodles writer, or a hand-written BCF2.2 encoder for mixed ploidy) / BGZF", "noodles (VCF/BCF/BGZF parsing), clap and env_logger are exercised, not modelled"] + ["thread scheduling, OS pipes and hash seeds are runtime behaviour: explored by repetition, not proved"],
     ),
 }
@@ -143,7 +143,7 @@ PROPS.update({
              "read back compared with readText (f64::from_str vs parseF64, bit for bit); 2500 (thorough 50000) single values formatted, 1650 (thorough 20000) decimal strings parsed incl. a malformed stream; "
              "format detection on prefixes; 40 (thorough 400) CLI chains `sfs view -O {npy,text} --precision p` to a pipe or a file, read by view / fold / stat with auto-detection; "
              "40 (thorough 300) text -> npy -> text chains at equal precision (clause checked on the model for <= 15 significant digits); "
-             "non-trivial = distinct request other than a 1-axis spectrum without special values, a non-finite single value or an undetected prefix",
+             "non-trivial = distinct request other than a 1-axis spectrum without special values, a non-finite single value or an undetected prefix Plus shapes whose npy header is 64-aligned before padding (20-22 axes) and spectra of 8192 / 8193 / 9261 / 10201 / 16385 values, in-process and through pipes / files.",
         exhaustive=False, assumptions=IO_ASSUME,
     ),
     "C15": dict(
@@ -155,7 +155,7 @@ PROPS.update({
              "and a third (thorough all) loaded by real numpy (python3-vt) and compared bit for bit; reader: 186 (thorough ~600) files written by numpy.lib.format.write_array for dtype(10) x byte order(<,>) x version(1.0,2.0,3.0) "
              "with boundary values (min, max, +-1, 2^53+-1.., 2^64-1025..) where model, implementation and numpy's astype('<f8') must agree bit for bit, plus numpy files that must be rejected (Fortran order, bool, complex, f2, 0-d, str, structured); "
              "synthesized headers (each accepted one also read through a BufRead whose chunks are not aligned to the item size): type(10) x byte-order char(<,>,|) x version(1,2,3) x spelling (quotes, spacing, key order, trailing commas; a third outside the accepted family), unsupported descr strings, bad versions, count mismatches, malformed tuples; "
-             "non-trivial = every distinct request",
+             "non-trivial = every distinct request Plus written spectra of 8192 / 8193 / 9261 / 10201 / 12297 / 16385 values (numpy loads them too).",
         exhaustive=True, assumptions=IO_ASSUME + ["numpy 2.x from the tooling venv is the oracle the property names; if python3-vt is missing those cases are skipped and the evidence shows no numpy-* tags"],
     ),
     "C16": dict(
@@ -176,7 +176,7 @@ PROPS.update({
         rule="6 (thorough 30) npy files: first-chunk length enumerated 1..min(len,600) with later chunks whole / 1 byte / random 1-11, a read failure injected at every byte offset 0..len (incl. failing instead of EOF), truncated files over random schedules; "
              "the text reader likewise; writers: 1..7 bytes accepted per call and random schedules, a write failure at every offset (every third in quick); "
              "genotype reader (hook build_from_bufread) over vcf / vcf.gz / bcf / raw bcf for 3 (thorough 12) call sets: first chunk 1..150 (thorough 600) then whole / 1-byte / random chunks, 4096 / 8192 / 65535 / 65536 / 65537, all 1-byte, "
-             "and failures at 21 (thorough 101) offsets across the stream — a failing stream must give an error or the complete result; compared with the create model; non-trivial = every distinct request",
+             "and failures at 21 (thorough 101) offsets across the stream — a failing stream must give an error or the complete result; compared with the create model; non-trivial = every distinct request Plus the binary reading a named pipe given as the input path with a first write of 1 / 2 / 3 / 19 / 27 bytes (vcf, vcf.gz, bcf, raw bcf).",
         exhaustive=True, assumptions=IO_ASSUME + ["noodles' VCF/BCF/BGZF readers are exercised over chunk schedules, not modelled (partial: explored, not proved)"],
         correspondence_only=["schedule independence and failure propagation of the noodles-based genotype reader path (vcf, vcf.gz, bcf, raw bcf)"],
     ),
@@ -206,7 +206,7 @@ PROPS.update({
         nontrivial=r"^strel-",
         rule="200 (thorough 3000) count spectra with 1-4 axes of unequal length (and 3x3): for every applicable statistic the value on x and on T(x) for T in {fold with fill zero (library and `sfs fold --fill zero | sfs stat`), "
              "replace the two monomorphic entries by random values, multiply by a constant in {2, 0.5, 3, 0.1, 1000, 7.25, 0.001}, swap the two populations}, and f3 / f4 against the f2 combination of the marginals computed with the real marginalize; "
-             "both values compared with the model, and the relation itself re-checked on the model values in exact arithmetic (a relation failing there is reported as a model-level violation); non-trivial = every distinct request",
+             "both values compared with the model, and the relation itself re-checked on the model values in exact arithmetic (a relation failing there is reported as a model-level violation); non-trivial = every distinct request Plus `sfs stat` invocations computing all applicable statistics together in random order (and count-based next to frequency-based pairs) on x, c*x and x with other monomorphic entries.",
         exhaustive=False, assumptions=ST_ASSUME + ["swapping, scaling and replacing entries are done by the harness on the data (there is no sfs operation for them); folding and marginalisation use the real code"],
     ),
 })
@@ -219,7 +219,7 @@ PROPS.update({
         rule="outcome classes {OK, ERR, PANIC}: the full grid statistic(14) x shapes with 1-4 axes of length 0..4 (all 780 shapes in thorough; 1-3 axes + a fifth of the 4-axis shapes in quick) in-process (each statistic separately, panics caught), a sample of it through `sfs stat` / `sfs fold --fill *` / `sfs view [-O npy]` on text inputs (zero-element spectra included), view option combinations on degenerate shapes, "
              "27 empty / 1-7 byte / header-only inputs x 5 invocations, 24 absurd declared shapes (2^32 x 2^32, zero-masked overflow, 2^64 +- 1, 300 / 22000 axes) x 12 invocations, 35 option values at and beyond their bounds (--precision 65535/65536/2^32/2^64, -p 2^63.., axis 2^64-1, delimiters), 29 contradictory sample lists / projections / thread counts for create, "
              "and a mutation stream of 2400 (thorough 50000) inputs (bit flips, byte edits, deletions, duplications, truncations, splices, huge numbers, separators) over text / npy spectra, VCF, raw BCF and BGZF payloads re-wrapped in valid blocks; where the model predicts the class it must match, elsewhere the run must end in OK or in a non-zero status with a diagnostic on stderr; "
-             "non-trivial = distinct request whose class the model predicts, or any run that ends in a diagnosed error",
+             "non-trivial = distinct request whose class the model predicts, or any run that ends in a diagnosed error Plus npy / text headers declaring degenerate shapes ((), (,), (0,), (1,), (1, 1), (0, 0), <>) x each of the 14 statistics separately and the view / fold options.",
         exhaustive=True, assumptions=["the binary is the debug build the test suite uses (overflow checks on); in-process cases run under catch_unwind", "noodles / clap / nom / flate2 are exercised, not modelled; 14 panic sites inside noodles-bcf 0.32.0 (`todo!` on reserved typed values, split_at on zero alleles) are listed in known_findings.json and reported as KNOWN-FINDING"],
         correspondence_only=["absence of panics in third-party parsing of arbitrary VCF/BCF bytes (explored by the mutation stream)", "clap's handling of option values (explored)"],
     ),
